@@ -693,13 +693,27 @@ pub fn run(args: Args) {
     let sc = Scratch::new("c05");
     let dir = sc.path().to_path_buf();
     let nshapes = tier.pick(1usize, 2usize);
-    let only: Option<String> = std::env::var("FS_TXNS").ok();
+    // --replay <file>: re-run exactly the crash of a recorded witness
+    let replay: Option<Json> = args
+        .replay
+        .as_ref()
+        .and_then(|p| kvcore::run::load_replay(p))
+        .filter(|w| w["case"]["transaction"].is_string());
+    let only: Option<String> = match &replay {
+        Some(w) => w["case"]["transaction"].as_str().map(|s| s.to_string()),
+        None => std::env::var("FS_TXNS").ok(),
+    };
     let txns: Vec<Txn> = ALL_TXNS
         .iter()
         .copied()
         .filter(|t| only.as_ref().map(|o| o.split(',').any(|x| x == t.name())).unwrap_or(true))
         .collect();
-    let have_strace = tier == kvcore::Tier::Thorough
+    let want_strace = match &replay {
+        Some(w) => w["case"]["crash"].as_str().map(|c| c.starts_with("Syscall")).unwrap_or(false),
+        None => tier == kvcore::Tier::Thorough,
+    };
+    let nshapes = if replay.is_some() { 2 } else { nshapes };
+    let have_strace = want_strace
         && Command::new("strace")
             .arg("-V")
             .stdout(Stdio::null())
@@ -880,8 +894,30 @@ pub fn run(args: Args) {
             }
         }
         run.extra("syscalls_inside_transactions", json!(sys_summary));
-    } else if tier == kvcore::Tier::Thorough {
+    } else if want_strace {
         run.acc.inconclusive("strace is not usable here: the syscall-level crash tier could not run");
+    }
+    if let Some(w) = &replay {
+        cases.retain(|(pi, c)| {
+            json!(format!("{c:?}")) == w["case"]["crash"]
+                && json!(SHAPES[plans[*pi].shape].name) == w["case"]["shape"]
+        });
+        if cases.is_empty() {
+            // a point that this tier does not sample
+            let k = w["case"]["crash"]
+                .as_str()
+                .and_then(|m| m.strip_prefix("Hook("))
+                .and_then(|m| m.strip_suffix(')'))
+                .and_then(|m| m.parse::<u64>().ok());
+            if let Some(k) = k {
+                for (pi, p) in plans.iter().enumerate() {
+                    if json!(SHAPES[p.shape].name) == w["case"]["shape"] && k <= p.n {
+                        cases.push((pi, Crash::Hook(k)));
+                    }
+                }
+            }
+        }
+        println!("replaying {} crash case(s): {}", cases.len(), w["case"]);
     }
     run.extra("crash_cases_enumerated", json!(cases.len()));
     run.extra("transactions_with_sampled_crash_points", json!(sampled));
@@ -909,7 +945,12 @@ pub fn run(args: Args) {
         });
     }
 
-    // thresholds
+    // thresholds (a replay judges one case only)
+    if replay.is_some() {
+        drop(plans);
+        drop(sc);
+        run.finish();
+    }
     for t in &txns {
         run.require(
             run.acc.get(&format!("control.completes.{}", t.name())) > 0,
